@@ -5,7 +5,7 @@
 //! The functions are written out one by one (no macro_rules): T4 scans this file with syn exactly as
 //! it scans the crates of /repo, and the keys it predicts for these functions are compared with the
 //! keys the real macro built (`samesig.key`).
-use pico::{DatabaseDyn, DerivedNodeId, Key, MemoRef, Storage};
+use pico::{DatabaseDyn, DerivedNodeId, Key, Storage};
 use pico_macros::{memo, Db};
 
 #[derive(Db, Default)]
@@ -240,6 +240,6 @@ pub fn probe_key(db: &TestDatabase, e: &Entry, args: &[u32], key: u64) -> Option
         }
     }
     let id = DerivedNodeId::new(Key::from(key), params);
-    db.get_storage_dyn().get_derived_node_value_and_revision(id)?;
-    Some(*MemoRef::<u32>::new(id).lookup(db))
+    let (value, _) = db.get_storage_dyn().get_derived_node_value_and_revision(id)?;
+    value.downcast_ref::<u32>().copied()
 }
